@@ -38,6 +38,7 @@ import (
 	"verif/harness/ctr"
 	"verif/harness/env"
 	"verif/harness/h"
+	_ "verif/harness/warm"
 	"verif/harness/keys"
 	"verif/harness/pol"
 	"verif/harness/sel"
